@@ -42,6 +42,8 @@ structure Content where
   /-- which write produced it (`_modified_time`) -/
   stamp : Nat
   size : Nat
+  /-- id of the template *file name* it was generated from (`_template_filename`) -/
+  file : Nat
   deriving DecidableEq, Repr
 
 structure File where
@@ -142,9 +144,11 @@ structure World where
   pyc : Option (Nat × Nat × Content)
   /-- this interpreter writes bytecode (`sys.dont_write_bytecode` is false) -/
   pycOn : Bool
+  /-- id of the file name of the Template being constructed (`filename`) -/
+  fileId : Nat
 
 def World.init : World :=
-  { fs := FS.empty, srcVer := 0, srcMtime := 0, clock := 0, nextTmp := 0, stamp := 0, pyc := none, pycOn := false }
+  { fs := FS.empty, srcVer := 0, srcMtime := 0, clock := 0, nextTmp := 0, stamp := 0, pyc := none, pycOn := false, fileId := 0 }
 
 inductive Status | done | raised | died
   deriving DecidableEq, Repr
@@ -182,7 +186,7 @@ def hookWriter (eff : Content → FS → FS) : Writer := fun w new _ budget =>
 
 /-- what `_compile` produces from the current source -/
 def newContent (w : World) (size : Nat) : Content :=
-  { src := w.srcVer, magic := magicNumber, complete := true, stamp := w.stamp, size := size }
+  { src := w.srcVer, magic := magicNumber, complete := true, stamp := w.stamp, size := size, file := w.fileId }
 
 /-- faults of one construct -/
 structure Plan where
@@ -236,6 +240,10 @@ def afterGroup (w : World) (g : GroupOut) : World :=
 
 def resOf (s : Status) : Res := if s = .died then .died else .failed
 
+/-- the re-check after loading: `module._magic_number != MAGIC_NUMBER or module._template_filename != filename` -/
+def needsRegen (w : World) (c : Content) : Bool :=
+  (magicRecheck && c.magic != magicNumber) || (fileRecheck && c.file != w.fileId)
+
 /-- second half of `_compile_from_file`: load, magic re-check, rewrite, reload -/
 def phase2 (wr : Writer) (w1 : World) (p : Plan) (left : Option Nat) (acts1 : List Act) (n1 : Nat)
     (calls1 : List (Content × P)) : Out :=
@@ -243,7 +251,7 @@ def phase2 (wr : Writer) (w1 : World) (p : Plan) (left : Option Nat) (acts1 : Li
   | (none, _) => ⟨w1, .failed, acts1, n1, calls1⟩
   | (some c, pyc1) =>
     let w1' := { w1 with pyc := pyc1 }
-    if magicRecheck && c.magic != magicNumber then
+    if needsRegen w1 c then
       let g2 := wr w1' (newContent w1' p.size2) p.fates2 left
       let w2 := afterGroup w1' g2
       if g2.status ≠ .done then ⟨w2, resOf g2.status, acts1 ++ g2.acts, n1 + 1, calls1 ++ g2.calls⟩
@@ -296,11 +304,25 @@ def HOp.ok : HOp → Prop
 
 def HistOk (h : List HOp) : Prop := ∀ op ∈ h, op.ok
 
-/-- the property's "a (re)write is due": missing, older than the source, other magic number -/
-def Due (w : World) : Prop :=
-  w.fs .mod = none ∨ ∃ f, w.fs .mod = some f ∧ (f.mtime < w.srcMtime ∨ f.content.magic ≠ magicNumber)
+/-- What remains assumed about a history: a module file installed by somebody else is complete, and - the
+one thing mako cannot repair - it does not collide in (mtime second, size) with the bytecode cache entry
+of the module path unless it is the very file the entry was compiled from. -/
+def HOp.okAt (w : World) : HOp → Prop
+  | .replaceMod c m => c.complete = true ∧
+      ∀ m' s c', w.pyc = some (m', s, c') → m' = m → s = c.size → c' = c
+  | _ => True
 
-/-- the bytecode cache agrees with the file whenever its key matches (guard of finding F-C15-2) -/
+def HistOkFrom : World → List HOp → Prop
+  | _, [] => True
+  | w, op :: r => op.okAt w ∧ HistOkFrom (stepH w op) r
+
+/-- the property's "a (re)write is due": missing, older than the source, other magic number, or not generated
+from this template file at all (another file name maps to the same module path) -/
+def Due (w : World) : Prop :=
+  w.fs .mod = none ∨ ∃ f, w.fs .mod = some f ∧
+    (f.mtime < w.srcMtime ∨ f.content.magic ≠ magicNumber ∨ f.content.file ≠ w.fileId)
+
+/-- the bytecode cache agrees with the file whenever its key matches -/
 def PycCoherent (w : World) : Prop :=
   ∀ m s c f, w.pyc = some (m, s, c) → w.fs .mod = some f → m = f.mtime → s = f.content.size → c = f.content
 
